@@ -128,6 +128,43 @@ func astOf(n jparse.Node) M {
 	return M{"k": "Unknown", "gotype": fmt.Sprintf("%T", n)}
 }
 
+// astCps is the tree in the form the grammar specification (JSyntax) builds it: variable and
+// parameter names as code-point sequences.
+func astCps(m interface{}) interface{} {
+	switch x := m.(type) {
+	case []interface{}:
+		out := make([]interface{}, len(x))
+		for i := range x {
+			out[i] = astCps(x[i])
+		}
+		return out
+	case map[string]interface{}:
+		return astCpsMap(x)
+	}
+	return m
+}
+
+func astCpsMap(x map[string]interface{}) interface{} {
+	out := M{}
+	for k, v := range x {
+		out[k] = astCps(v)
+	}
+	switch x["k"] {
+	case "Variable":
+		return M{"k": "Variable", "s": cps(x["nm"].(string))}
+	case "Assign":
+		return M{"k": "Assign", "s": cps(x["nm"].(string)), "e": out["e"]}
+	case "Lambda":
+		ps := x["params"].([]interface{})
+		cp := make([]interface{}, len(ps))
+		for i, p := range ps {
+			cp[i] = cps(p.(string))
+		}
+		return M{"k": "Lambda", "ps": cp, "body": out["body"], "short": x["short"]}
+	}
+	return out
+}
+
 func astOfOpt(n jparse.Node) M {
 	return astOf(n)
 }
